@@ -874,6 +874,8 @@ class Lib:
                 return v.__dict__[name]
             if hasattr(v, 'getattr'):
                 return v.getattr(self.I, name)
+            if getattr(v, 'is_str', False) and not hasattr(str, name):
+                raise PyRaise(builtin_exc('AttributeError'), "'str' object has no attribute '%s'" % name)
             return LibMethod(v, name)
         if isinstance(v, SymList):
             if not hasattr(list, name):
